@@ -991,6 +991,9 @@ func (w *bWorld) watch(c *bCase, st *bStep, exe string) error {
 func (w *bWorld) apply(c *bCase, st *bStep, exe string) error {
 	switch st.Op {
 	case "watch":
+		if exe != "" {
+			return w.childBuild(c, st, exe)
+		}
 		return w.watch(c, st, exe)
 	case "revert_env":
 		// the previous edit of the target's env atom is undone
@@ -1186,10 +1189,16 @@ type bChildSpec struct {
 	Step   bStep   `json:"step"`
 	Log    string  `json:"log"`
 	Args   []string `json:"args"`
+	// the versions the parent has written so far (a watch step goes on editing from there)
+	EnvVer  map[string]int `json:"env_ver,omitempty"`
+	SrcVer  map[string]int `json:"src_ver,omitempty"`
+	Unref   map[string]int `json:"unref,omitempty"`
+	Comment int            `json:"comment,omitempty"`
 }
 
 func (w *bWorld) childBuild(c *bCase, st *bStep, exe string) error {
-	spec := bChildSpec{Dir: w.dir, Shape: w.shape, Values: w.values, Step: *st, Log: filepath.Join(filepath.Dir(w.dir), filepath.Base(w.dir)+".childlog"), Args: w.flagArgs()}
+	spec := bChildSpec{Dir: w.dir, Shape: w.shape, Values: w.values, Step: *st, Log: filepath.Join(filepath.Dir(w.dir), filepath.Base(w.dir)+".childlog"), Args: w.flagArgs(),
+		EnvVer: w.envVer, SrcVer: w.srcVer, Unref: w.unref, Comment: w.comment}
 	os.Remove(spec.Log)
 	b, _ := json.Marshal(spec)
 	sp := spec.Log + ".spec"
@@ -1272,6 +1281,24 @@ func TestVerifBuildChild(t *testing.T) {
 		lf.Write(append(bb, '\n'))
 	}
 	VerifCrash = w.crashPoint
+	if spec.Step.Op == "watch" {
+		// Project.Watch never returns: it runs here so that it ends with this process
+		w.fixedArgs = nil
+		for k, v := range spec.EnvVer {
+			w.envVer[k] = v
+		}
+		for k, v := range spec.SrcVer {
+			w.srcVer[k] = v
+		}
+		for k, v := range spec.Unref {
+			w.unref[k] = v
+		}
+		w.comment = spec.Comment
+		w.fail = map[string]bool{}
+		w.watch(&bCase{Shape: *spec.Shape}, &spec.Step, "")
+		lf.Close()
+		return
+	}
 	w.build(&spec.Step)
 	lf.Close()
 }
